@@ -148,6 +148,16 @@ func (c11) Generate(r *sim.Rand, tier string) *sim.Scenario {
 		nsteps = r.Range(13, 30) // long histories (fault enumeration grows with the square: kept rare)
 	}
 	pf := []float64{0, 0, 0.15, 0.3}[r.Intn(4)]
+	long := r.Bool(0.015)
+	if long {
+		// a long training run on one model, one optimizer, one set of component
+		// objects (per-object state that only matters after many steps): small
+		// learning rate so that the trajectory stays in range, a few faults, no
+		// enumeration of fault positions
+		nsteps = r.Range(60, 400)
+		sc.Cfg["lr"], sc.Cfg["lrmode"] = r.LogUniform(1e-4, 5e-3), 0
+		pf = 0.01
+	}
 	for k := 0; k < nsteps; k++ {
 		st := sim.Step{Op: "train", N: k % nb, Out: -1}
 		if r.Bool(pf) {
@@ -156,6 +166,9 @@ func (c11) Generate(r *sim.Rand, tier string) *sim.Scenario {
 		sc.Steps = append(sc.Steps, st)
 	}
 	sc.Cfg["enum"] = 1
+	if long {
+		sc.Cfg["enum"] = 0
+	}
 	return sc
 }
 
